@@ -11,57 +11,67 @@ typedef uint16_t a16;
 typedef uint32_t a32;
 typedef uint64_t a64;
 
+// post-operation hook for the one watched 32-bit word (see sim_watch32)
+template <typename T>
+static inline void post(const volatile T*, int, T, T) {}
+template <>
+inline void post<a32>(const volatile a32* a, int kind, a32 before, a32 after) {
+  if (__builtin_expect((const volatile void*)a == sim_watched32, 0))
+    sim_watch32_post(kind, before, after);
+}
+
+#define RMW(N, name, builtin)                                                     \
+  extern "C" a##N __tsan_atomic##N##_##name(volatile a##N* a, a##N v, int) {      \
+    sim_point(SP_RMW, (const void*)a);                                            \
+    a##N before = builtin(a, v, __ATOMIC_SEQ_CST);                                \
+    post<a##N>(a, SP_RMW, before, __atomic_load_n(a, __ATOMIC_SEQ_CST));          \
+    return before;                                                                \
+  }
+
 #define SHIM(N)                                                                                       \
   extern "C" a##N __tsan_atomic##N##_load(const volatile a##N* a, int) {                              \
     sim_point(SP_LOAD, (const void*)a);                                                               \
-    return __atomic_load_n(a, __ATOMIC_SEQ_CST);                                                      \
+    a##N v = __atomic_load_n(a, __ATOMIC_SEQ_CST);                                                    \
+    post<a##N>(a, SP_LOAD, v, v);                                                                     \
+    return v;                                                                                         \
   }                                                                                                   \
   extern "C" void __tsan_atomic##N##_store(volatile a##N* a, a##N v, int) {                           \
     sim_point(SP_STORE, (const void*)a);                                                              \
+    a##N before = __atomic_load_n(a, __ATOMIC_SEQ_CST);                                               \
     __atomic_store_n(a, v, __ATOMIC_SEQ_CST);                                                         \
+    post<a##N>(a, SP_STORE, before, v);                                                               \
   }                                                                                                   \
-  extern "C" a##N __tsan_atomic##N##_exchange(volatile a##N* a, a##N v, int) {                        \
-    sim_point(SP_RMW, (const void*)a);                                                                \
-    return __atomic_exchange_n(a, v, __ATOMIC_SEQ_CST);                                               \
-  }                                                                                                   \
-  extern "C" a##N __tsan_atomic##N##_fetch_add(volatile a##N* a, a##N v, int) {                       \
-    sim_point(SP_RMW, (const void*)a);                                                                \
-    return __atomic_fetch_add(a, v, __ATOMIC_SEQ_CST);                                                \
-  }                                                                                                   \
-  extern "C" a##N __tsan_atomic##N##_fetch_sub(volatile a##N* a, a##N v, int) {                       \
-    sim_point(SP_RMW, (const void*)a);                                                                \
-    return __atomic_fetch_sub(a, v, __ATOMIC_SEQ_CST);                                                \
-  }                                                                                                   \
-  extern "C" a##N __tsan_atomic##N##_fetch_and(volatile a##N* a, a##N v, int) {                       \
-    sim_point(SP_RMW, (const void*)a);                                                                \
-    return __atomic_fetch_and(a, v, __ATOMIC_SEQ_CST);                                                \
-  }                                                                                                   \
-  extern "C" a##N __tsan_atomic##N##_fetch_or(volatile a##N* a, a##N v, int) {                        \
-    sim_point(SP_RMW, (const void*)a);                                                                \
-    return __atomic_fetch_or(a, v, __ATOMIC_SEQ_CST);                                                 \
-  }                                                                                                   \
-  extern "C" a##N __tsan_atomic##N##_fetch_xor(volatile a##N* a, a##N v, int) {                       \
-    sim_point(SP_RMW, (const void*)a);                                                                \
-    return __atomic_fetch_xor(a, v, __ATOMIC_SEQ_CST);                                                \
-  }                                                                                                   \
-  extern "C" a##N __tsan_atomic##N##_fetch_nand(volatile a##N* a, a##N v, int) {                      \
-    sim_point(SP_RMW, (const void*)a);                                                                \
-    return __atomic_fetch_nand(a, v, __ATOMIC_SEQ_CST);                                               \
-  }                                                                                                   \
+  RMW(N, exchange, __atomic_exchange_n)                                                               \
+  RMW(N, fetch_add, __atomic_fetch_add)                                                               \
+  RMW(N, fetch_sub, __atomic_fetch_sub)                                                               \
+  RMW(N, fetch_and, __atomic_fetch_and)                                                               \
+  RMW(N, fetch_or, __atomic_fetch_or)                                                                 \
+  RMW(N, fetch_xor, __atomic_fetch_xor)                                                               \
+  RMW(N, fetch_nand, __atomic_fetch_nand)                                                             \
   extern "C" int __tsan_atomic##N##_compare_exchange_strong(volatile a##N* a, a##N* c, a##N v, int,   \
                                                             int) {                                    \
     sim_point(SP_CAS, (const void*)a);                                                                \
-    return __atomic_compare_exchange_n(a, c, v, false, __ATOMIC_SEQ_CST, __ATOMIC_SEQ_CST);           \
+    a##N expected = *c;                                                                               \
+    int ok = __atomic_compare_exchange_n(a, c, v, false, __ATOMIC_SEQ_CST, __ATOMIC_SEQ_CST);         \
+    /* before = observed value; after = new value; a successful CAS is reported as SP_CAS, a failed */ \
+    /* one as SP_LOAD (it only observed) */                                                           \
+    post<a##N>(a, ok ? SP_CAS : SP_LOAD, ok ? expected : *c, ok ? v : *c);                            \
+    return ok;                                                                                        \
   }                                                                                                   \
   extern "C" int __tsan_atomic##N##_compare_exchange_weak(volatile a##N* a, a##N* c, a##N v, int,     \
                                                           int) {                                      \
     sim_point(SP_CAS, (const void*)a);                                                                \
-    return __atomic_compare_exchange_n(a, c, v, false, __ATOMIC_SEQ_CST, __ATOMIC_SEQ_CST);           \
+    a##N expected = *c;                                                                               \
+    int ok = __atomic_compare_exchange_n(a, c, v, false, __ATOMIC_SEQ_CST, __ATOMIC_SEQ_CST);         \
+    post<a##N>(a, ok ? SP_CAS : SP_LOAD, ok ? expected : *c, ok ? v : *c);                            \
+    return ok;                                                                                        \
   }                                                                                                   \
   extern "C" a##N __tsan_atomic##N##_compare_exchange_val(volatile a##N* a, a##N c, a##N v, int,      \
                                                           int) {                                      \
     sim_point(SP_CAS, (const void*)a);                                                                \
-    __atomic_compare_exchange_n(a, &c, v, false, __ATOMIC_SEQ_CST, __ATOMIC_SEQ_CST);                 \
+    a##N expected = c;                                                                                \
+    int ok = __atomic_compare_exchange_n(a, &c, v, false, __ATOMIC_SEQ_CST, __ATOMIC_SEQ_CST);        \
+    post<a##N>(a, ok ? SP_CAS : SP_LOAD, ok ? expected : c, ok ? v : c);                              \
     return c;                                                                                         \
   }
 
